@@ -182,6 +182,7 @@ type RefM struct {
 	Stack []int // mode indices (lox numbering)
 	St    lexref.RState
 	Empty bool // nothing consumed since the last accept/discard/try-again/reset
+	Accum bool // text of action-less fragments is being kept for the next emitting/discarding rule
 	// Dead: an unmatched @pop_mode happened; the documentation defines nothing afterwards.
 	Dead bool
 	// NonGreedy semantics switch: when set, a rule of the C08 shape ends at the
@@ -251,7 +252,7 @@ func (m *RefM) Clone() *RefM {
 }
 
 func (m *RefM) Key() string {
-	return fmt.Sprint(m.Stack, "|", m.St.Key(), m.Empty, m.Dead)
+	return fmt.Sprint(m.Stack, "|", m.St.Key(), m.Empty, m.Accum, m.Dead)
 }
 
 // Push is the reference PushRune: atom < 0 means end of input.
@@ -266,7 +267,9 @@ func (m *RefM) Push(atom int) Event {
 	}
 	w := m.C.Winner(m.St)
 	if w < 0 {
-		if m.Empty && atom < 0 {
+		if m.Empty && !m.Accum && atom < 0 {
+			// a clean end of input: no run in progress and no fragment text
+			// waiting for a rule that emits or discards it
 			return Event{K: EvEOF}
 		}
 		return Event{K: EvError}
@@ -297,6 +300,7 @@ func (m *RefM) Push(atom int) Event {
 	}
 	m.St = m.C.InitState(m.C.ByIndex[next])
 	m.Empty = true
+	m.Accum = ev.K == EvTryAgain
 	return ev
 }
 
@@ -348,6 +352,7 @@ type ProductResult struct {
 	DepthCapped         int
 	StateCapped         bool
 	Ambiguous           int
+	UnmatchedPops       int
 }
 
 type pnode struct {
@@ -484,11 +489,9 @@ func Product(b *Built, car *ctypes.Carrier, o ProductOpts) *ProductResult {
 				rev = ref.Push(atom)
 			}
 			if ref.Dead {
-				// unmatched @pop_mode: nothing is defined afterwards; the real
-				// machine must report an error too, then the branch is closed
-				if iev.K != EvError {
-					report(n, r, "unmatched-pop", fmt.Sprintf("@pop_mode with an empty mode stack: state machine returned %s instead of an error", iev))
-				}
+				// unmatched @pop_mode: the documentation defines nothing for it;
+				// the branch is closed without comparing
+				res.UnmatchedPops++
 				continue
 			}
 			if o.CompareEvents && iev != rev {
